@@ -3,8 +3,10 @@
 package props
 
 import (
+	"math/big"
 	"testing"
 
+	tx "github.com/MinterTeam/minter-go-node/coreV2/transaction"
 	"pgregory.net/rapid"
 	"verif/harness/sim"
 )
@@ -13,11 +15,55 @@ import (
 // Twin oracle: node R is restarted at drawn block boundaries, node N never; both get the
 // same requests; every response and, after every Commit, every query must agree.
 func TestC09(t *testing.T) {
-	rapid.Check(t, func(t *rapid.T) {
+	rapid.Check(t, func(t *rapid.T) { c09Case(t, "TestC09", false) })
+}
+
+// TestC09CandidateLimit runs the same twin oracle on worlds with 87..100 genesis candidates, short
+// stake periods and crafted declarations that push the count over 100: candidates are removed at the
+// recalculation blocks, their ids and the id counter must survive restarts (a later declaration gets
+// the same id on both nodes).
+func TestC09CandidateLimit(t *testing.T) {
+	rapid.Check(t, func(t *rapid.T) { c09Case(t, "TestC09CandidateLimit", true) })
+}
+
+func c09Case(t *rapid.T, test string, many bool) {
+	{
 		wo := sim.DefaultOpts()
 		wo.NearCap = rapid.Bool().Draw(t, "nearCap")
-		h := newHistory(t, wo, sim.GeneralProfile(), sim.BlockOpts{MaxTxs: 5, Absences: true, Evidence: true, EvidenceAny: true, TimeJumps: true})
+		prof := sim.GeneralProfile()
+		if many {
+			wo.MinExtraCands, wo.MaxExtraCands = 86, 95
+			wo.Frozen, wo.Orders, wo.Votes = false, false, false
+			wo.MinStakePd, wo.MaxStakePd = 2, 6
+			prof = stakingProfile()
+			prof["declare"], prof["candOn"], prof["candOff"] = 10, 6, 6
+		}
+		h := newHistory(t, wo, prof, sim.BlockOpts{MaxTxs: 5, Absences: true, Evidence: true, EvidenceAny: !many, TimeJumps: true})
 		h.N.Name = "restarted"
+		declared := 0
+		if many {
+			h.R.H.AfterBegin = func(sim.BlockReq) {
+				if sim.U(t, "craftDeclare", 2) != 0 {
+					return
+				}
+				for i := 1 + sim.U(t, "nDeclare", 3); i > 0; i-- {
+					u := sim.GetUser(sim.U(t, "declUser", h.W.NUsers))
+					stake := sim.Bip(int64(rapid.SampledFrom([]int{1, 50, 999, 1000, 1001, 5000, 400000}).Draw(t, "declStake")))
+					if h.G.Balance(u.Addr, 0).Cmp(new(big.Int).Add(stake, sim.Bip(20000))) < 0 {
+						continue
+					}
+					declared++
+					data := tx.DeclareCandidacyData{Address: u.Addr, PubKey: sim.ValKey(3000 + declared), Commission: uint32(sim.U(t, "declComm", 101)), Coin: 0, Stake: stake}
+					raw := sim.SignedTx(h.W, u, h.G.Nonce(u.Addr)+1, tx.TypeDeclareCandidacy, data, 0)
+					if !h.R.Deliver(&sim.TxMeta{Raw: raw, Kind: "declare-crafted", Type: tx.TypeDeclareCandidacy, Sender: u.Addr, Payer: u.Addr, Data: data, GasPrice: 1}) {
+						if h.R.Divergence != "" {
+							violation(t, "restart-divergence-response", h.R, "%s", h.R.Divergence)
+						}
+						violation(t, "panic", h.R, "%s", h.R.PanicReport())
+					}
+				}
+			}
+		}
 		twin := sim.NewNode(h.W)
 		twin.Name = "never-restarted"
 		h.R.Mirrors = []*sim.Node{twin}
@@ -65,6 +111,9 @@ func TestC09(t *testing.T) {
 		sim.S.LabelN("C09/restarts", restarts)
 		sim.S.LabelN("C09/blocks-after-restart", blocksAfter)
 		sim.S.LabelN("C09/accepted-after-restart", acceptedAfter)
-		sim.S.Case("TestC09", restarts > 0 && acceptedAfter > 0, sim.HashStrings(h.R.Steps), func() interface{} { return sim.HistorySample(h.R.Steps, 30) })
-	})
+		if many {
+			sim.S.LabelN("C09/candidate-limit/declared", declared)
+		}
+		sim.S.Case(test, restarts > 0 && acceptedAfter > 0 && (!many || declared > 0), sim.HashStrings(h.R.Steps), func() interface{} { return sim.HistorySample(h.R.Steps, 30) })
+	}
 }
